@@ -171,6 +171,10 @@ const RESERVED: &[&str] = &[
     "null", "NULL", "exists", "EXISTS", "empty", "EMPTY", "is_string", "is_list", "is_struct", "is_bool", "is_int", "is_float", "is_null",
 ];
 
+pub fn is_ident_pub(k: &str) -> bool {
+    is_ident(k)
+}
+
 fn is_ident(s: &str) -> bool {
     let mut cs = s.chars();
     match cs.next() {
